@@ -367,11 +367,14 @@ type Env struct {
 	TDB    *triedb.Database
 	Snaps  *snapshot.Tree
 	DB     state.Database
+
+	persists int
+	diskRoot common.Hash // root of the path database's disk layer as far as this harness moved it
 }
 
 // NewEnv creates an empty in-memory environment.
 func NewEnv(scheme string, snap bool) *Env {
-	e := &Env{Scheme: scheme, Snap: snap, Disk: rawdb.NewMemoryDatabase()}
+	e := &Env{Scheme: scheme, Snap: snap, Disk: rawdb.NewMemoryDatabase(), diskRoot: types.EmptyRootHash}
 	e.open(types.EmptyRootHash)
 	return e
 }
@@ -422,6 +425,15 @@ func (e *Env) Persist(root common.Hash) error {
 		e.Snaps.Release()
 	}
 	if e.Scheme == "path" {
+		// alternate between the two ways a path database reaches the key-value store: flattening all
+		// layers into the disk layer (Commit) and journalling the diff layers (Journal, as on shutdown)
+		e.persists++
+		if e.persists%2 == 0 && root != e.diskRoot { // (flattening onto itself is refused by pathdb)
+			if err := e.TDB.Commit(root, false); err != nil {
+				return fmt.Errorf("pathdb commit: %w", err)
+			}
+			e.diskRoot = root
+		}
 		if err := e.TDB.Journal(root); err != nil {
 			return fmt.Errorf("pathdb journal: %w", err)
 		}
